@@ -13,3 +13,39 @@ macro_rules! lib_only {
         }
     };
 }
+include!("/verif/kani/common.rs");
+
+fn count_shape(n: usize) {
+    let mut args: Vec<QueryResult> = Vec::with_capacity(3);
+    let mut resolved = 0i64;
+    let mut i = 0;
+    while i < n {
+        let k: u8 = kani::any();
+        kani::assume(k <= 2);
+        match k {
+            0 => { args.push(qr_int(kani::any())); resolved += 1; }
+            1 => { args.push(qr_lit_int(kani::any())); resolved += 1; }
+            _ => args.push(qr_unresolved()),
+        }
+        i += 1;
+    }
+    let r = count(&args);
+    match &r {
+        PathAwareValue::Int((_, c)) => kani::assert(*c == resolved, "count(q) is the number of resolved values of q"),
+        _ => kani::assert(false, "count returns an integer"),
+    }
+    std::mem::forget(r);
+    std::mem::forget(args);
+}
+
+/// C18: count(q) is the number of resolved values of q (0 for an empty selection); all mixes of <= 3 entries
+#[cfg_attr(kani, kani::proof)]
+#[cfg_attr(kani, kani::stub(alloc::fmt::format, fmt_stub))]
+#[cfg_attr(verif_replay, test)]
+fn k_count() {
+    lib_only!();
+    count_shape(0);
+    count_shape(1);
+    count_shape(2);
+    count_shape(3);
+}
